@@ -428,6 +428,7 @@ func family2() []string {
 		"unquote q", "unquote f", "! unquote q", "unquote nofile",
 		"unix2dos f", "unix2dos nofile", "! unix2dos f", "unix2dos m",
 		"kill", "kill -INT", "kill -BAD", "kill nosuch", "wait", "wait nosuch", "! wait", "! kill", "kill a b c",
+		"exec", "exec &", "exec &a&", "! exec &a&", "exec &a& &",
 		"exists l", "cmp l f", "cmp h f", "cmp h g", "grep quoted q", "grep ^quoted q", "exists n/e", "cmp d/f f",
 	}
 }
@@ -604,6 +605,23 @@ func realMain() {
 	}
 	addAll(def, cliAlpha, ncli, true)
 	addAll(coe, cliAlpha, 2, true)
+	// [short] through the command-line binary: there is no -short flag there, so
+	// the condition is false (the check binary itself cannot evaluate [short]:
+	// package testing refuses outside a test binary, which is what this is about)
+	for _, sc := range []struct {
+		lines []string
+		exp   expectation
+	}{
+		{[]string{"[short] exists nofile", "exists f"}, expectation{Verdict: "pass", Why: "the command-line binary has no -short: [short] is false and the line is skipped"}},
+		{[]string{"[!short] exists nofile"}, expectation{Verdict: "fail", FailLine: 1, Why: "[!short] holds in the command-line binary, the line runs and fails"}},
+		{[]string{"[short] stop", "exists nofile"}, expectation{Verdict: "fail", FailLine: 2, Why: "[short] is false: stop is skipped, the next line fails"}},
+		{[]string{"[!short] stop", "exists nofile"}, expectation{Verdict: "pass", Why: "[!short] holds: the script stops, passed"}},
+	} {
+		for _, cfg := range []config{def, coe} {
+			e := sc.exp
+			cases = append(cases, scase{Cfg: cfg, Lines: sc.lines, Expect: &e, CLI: true})
+		}
+	}
 	// program lookup along PATH: a directory or a non-executable file that has
 	// the program's name is not the program
 	pathCases := []struct {
